@@ -18,12 +18,12 @@ CHECKS = {
  "C12": ("StreamLab", "PBT: independent recount of generated normalised streams vs Summarize counters, getters and the parsed-back summary text, with and without Repeat",
          "Counters, scenario classification, replay-insensitivity and the single summary write compared with an independent recount for generated streams covering every outcome path. Known findings D2/D5 excluded by construction and counted.",
          "Aborted retry chains unconstrained (reading R2).", "6/C12"),
- "C14": ("StreamLab", "PBT with parse-back: output of Normalize<Basic|Libtest|Json|JUnit> for generated streams (Basic with colours off and, rendered through a VT interpreter, with colours on) is parsed by hand-written line / RFC 8259 JSON / XML 1.0 parsers into fact multisets and compared with the stream's facts in both directions; well-formedness, started/result pairing and suite totals checked",
+ "C14": ("StreamLab", "PBT with parse-back: output of Normalize<Basic|Libtest|Json|JUnit> for generated streams (Basic with colours off and, rendered through a VT interpreter, with colours on) is parsed by hand-written line / RFC 8259 JSON / XML 1.0 parsers into fact multisets and compared with the stream's facts in both directions; well-formedness, started/result pairing and suite totals checked, incl. the [Summary] totals of the default terminal reporter Summarize<Normalize<Basic>> against the report's entries",
          "Every executed step, failed hook and parser error appears exactly once with the right status and message, nothing else appears, documents are well-formed and totals agree with entries, for generated streams with decorated names, path-less features, same-named scenarios, retries, hook failures and reporter options. Known finding D7 (JUnit drops the output of skipped testcases) is reported as KNOWN-FINDING.",
          "Message identity is checked through generated unique tokens; libtest totals follow reading R4.", "6/C14"),
- "C13": ("StreamLab", "PBT with a reference interpreter of 18 compiled writer nestings (FailOnSkipped/Repeat/Tee/Or/discard) over recorder leaves; arbitrary (also non-contract) streams; stats algebra checked with arbitrary leaf stats",
+ "C13": ("StreamLab", "PBT with a reference interpreter of 20 compiled writer nestings (FailOnSkipped/Repeat/Tee/Or/discard) over recorder leaves; arbitrary (also non-contract) streams; stats algebra checked with arbitrary leaf stats",
          "Every recorder leaf's exact event/write sequence and the combined statistics equal the reference interpreter's prediction for generated streams and all zoo nestings.",
-         "Nestings are a fixed zoo of 18 type-checking compositions.", "6/C13"),
+         "Nestings are a fixed zoo of 20 type-checking compositions.", "6/C13"),
  "C02": ("RunnerLab", "model-based PBT: generated features x outcome plans x harness-owned schedules against the real runner; per-attempt reference automaton + fault accounting; proptest generation/shrinking; bounded-exhaustive schedule DFS for small cases",
          "Every attempt observed in thousands of generated runs (all outcome kinds at every position, hooks, retries, concurrent interleavings chosen by the harness) equals the prediction of an independent reference model of one attempt; all schedules of small cases enumerated. Exploration: evidence within the generated bounds, no proof.",
          "Shared background steps / World::new are judged by admissibility + global accounting. Trusts the harness driver and the 60-line model.", "6/C02"),
@@ -54,7 +54,7 @@ CHECKS = {
  "C15": ("FuncLab", "PBT with reference evaluator: generated tagged feature sets x (--name regex, --tags AST, closure) presence combinations through Cucumber::custom(VecParser, RecordingRunner).filter_run; expected feature list computed independently and compared with gherkin::Feature equality; TagOperation::eval and the textual tag-expression parser vs a reference boolean evaluator",
          "The runner receives exactly the features with exactly the accepted scenarios in order and everything else intact, for generated tags on all levels and all eight combinations of the three filter sources; the boolean evaluator agrees with a reference on random formulas.",
          "Closures are drawn from a small family (line residue classes).", "6/C15"),
- "C16": ("FuncLab", "differential PBT: grammar-generated .feature files on disk through parser::Basic vs single-pass reference substitution over the gherkin crate's own unexpanded parse",
+ "C16": ("FuncLab", "differential PBT: grammar-generated .feature files on disk through parser::Basic (selected by directory path, by the --input glob, or file by file) vs single-pass reference substitution over the gherkin crate's own unexpanded parse",
          "One scenario per data row, in order and place, with names / step texts / doc strings / table cells substituted, tags appended, distinct positions, and exactly one error naming an unknown placeholder, for generated outlines with hostile values and placeholder shapes.",
          "Trusts the external gherkin crate's unexpanded parse; generator asserts it contains the outlines it wrote.", "6/C16"),
  "C17": ("FuncLab", "differential PBT: step::Collection::find vs regex::Regex::{is_match, captures, capture_names} over grammar-generated definition sets registered in two permutations; chosen fn pointers invoked and identified",
